@@ -565,5 +565,70 @@ func main() {
 	}
 	fmt.Println("]")
 	fmt.Println()
+	// ---- the decision caches (C14): per method of CachedEnforcer / SyncedCachedEnforcer, in source order: calls
+	// on the cache itself, calls on the receiver (helpers), calls on the embedded enforcer
+	fmt.Println("/-- per method of CachedEnforcer / SyncedCachedEnforcer: (cache, Clear | Delete | Get | Set), (self, M) a call on the receiver, (under, M) a call on the embedded enforcer, in source order -/")
+	fmt.Println("def cacheCalls : List (String × List (String × String)) := [")
+	var cks []sk
+	for _, af := range parsed {
+		for _, d := range af.Decls {
+			fd, ok := d.(*ast.FuncDecl)
+			if !ok || fd.Body == nil || fd.Recv == nil {
+				continue
+			}
+			rt := recvOf(fd)
+			if rt != "CachedEnforcer" && rt != "SyncedCachedEnforcer" {
+				continue
+			}
+			recv := ""
+			if len(fd.Recv.List[0].Names) > 0 {
+				recv = fd.Recv.List[0].Names[0].Name
+			}
+			var calls []string
+			ast.Inspect(fd.Body, func(x ast.Node) bool {
+				call, ok := x.(*ast.CallExpr)
+				if !ok {
+					return true
+				}
+				sel, ok := call.Fun.(*ast.SelectorExpr)
+				if !ok {
+					return true
+				}
+				m := sel.Sel.Name
+				switch base := sel.X.(type) {
+				case *ast.Ident:
+					if base.Name == recv {
+						calls = append(calls, "self:"+m)
+					}
+				case *ast.SelectorExpr:
+					if id, ok := base.X.(*ast.Ident); ok && id.Name == recv {
+						switch base.Sel.Name {
+						case "cache":
+							calls = append(calls, "cache:"+m)
+						case "Enforcer", "SyncedEnforcer":
+							calls = append(calls, "under:"+m)
+						}
+					}
+				}
+				return true
+			})
+			cks = append(cks, sk{rt + "." + fd.Name.Name, calls})
+		}
+	}
+	sort.Slice(cks, func(i, j int) bool { return cks[i].name < cks[j].name })
+	for i, k := range cks {
+		q := make([]string, len(k.calls))
+		for j, c := range k.calls {
+			kv := strings.SplitN(c, ":", 2)
+			q[j] = fmt.Sprintf("(%q, %q)", kv[0], kv[1])
+		}
+		sep := ","
+		if i == len(cks)-1 {
+			sep = ""
+		}
+		fmt.Printf("  (%q, [%s])%s\n", k.name, strings.Join(q, ", "), sep)
+	}
+	fmt.Println("]")
+	fmt.Println()
 	fmt.Println("end Casbin.Facts")
 }
